@@ -12,7 +12,9 @@ import (
 	"io"
 	"os"
 	"strings"
+	"sync/atomic"
 	"syscall"
+	"time"
 
 	"verifharness/internal/core"
 	"verifharness/internal/imggen"
@@ -94,6 +96,20 @@ func c07Err(kind string) error {
 	return src.ErrInjected
 }
 
+// lenSource delivers head, then rest; Len() reports what is left of head only.
+type lenSource struct {
+	head *bytes.Buffer
+	rest io.Reader
+}
+
+func (l *lenSource) Len() int { return l.head.Len() }
+func (l *lenSource) Read(p []byte) (int, error) {
+	if l.head.Len() > 0 {
+		return l.head.Read(p)
+	}
+	return l.rest.Read(p)
+}
+
 type c07Loaded struct {
 	cs   c07Case
 	res  loadResult
@@ -155,6 +171,24 @@ func c07Load(data []byte, cs c07Case) c07Loaded {
 				_ = pr.Close()
 				return l
 			}
+		}
+		switch cs.Seeker {
+		case "strings.Reader":
+			sr := strings.NewReader(string(whole))
+			_, _ = sr.Seek(int64(cs.SeekPrefix), io.SeekStart)
+			return c07Loaded{cs, loadWith(cs.Loader, sr), src.New(nil), data}
+		case "bufio.Reader": // a buffered reader from which the caller has already taken the prefix byte by byte
+			bb := bufio.NewReaderSize(bytes.NewReader(whole), 64)
+			for i := 0; i < cs.SeekPrefix; i++ {
+				_, _ = bb.ReadByte()
+			}
+			return c07Loaded{cs, loadWith(cs.Loader, bb), src.New(nil), data}
+		case "len-source":
+			// a prefetch wrapper: the first bytes sit in a buffer whose length it reports through Len(),
+			// the rest is still to come from the connection behind it
+			k := cs.SeekPrefix % (cs.Cut + 1)
+			ls := &lenSource{head: bytes.NewBuffer(append([]byte{}, data[:k]...)), rest: c07Source(data[k:], c07Case{Cut: cs.Cut - k, Terminal: "eof", Schedule: "7"})}
+			return c07Loaded{cs, loadWith(cs.Loader, ls), src.New(nil), data}
 		}
 		br := bytes.NewReader(whole)
 		_, _ = br.Seek(int64(cs.SeekPrefix), io.SeekStart)
@@ -345,6 +379,49 @@ func c07CutClass(t imggen.Truth, cut, total int) string {
 func runC07(r *core.Run) {
 	r.Rule = "for each seed file (generated PNG/JPEG/WebP with and without profiles, the repository's small files, garbage, empty) every prefix length x 4 loaders x terminal {EOF, sticky I/O error, final data together with EOF, final data together with the error} x delivery schedule {all-at-once, 1 byte, seeded random; thorough adds 2,3,7,4095,4096,4097 and mutated seeds}; the stream is drained with buffers of 1, 7 or 32768 bytes, immediately or after up to 3 further loads (deferred read-out, so that recycled buffers show); non-trivial = distinct (loader, seed, cut class, terminal, schedule, metadata-success) other than cuts beyond the needed data with successful metadata"
 	r.Assumptions = []string{"the source is sticky: once it has failed it keeps returning the same error", "faults enter only through the io.Reader handed to Load"}
+	if strings.HasPrefix(r.Variant, "markers") {
+		// a fresh process in which eight goroutines at once load streams with marker codes, chunk names
+		// and FourCCs nothing in the process has met before (every code twice, by two goroutines), and
+		// drain the returned streams: whatever the loaders remember about what they have seen must not
+		// break a load ("no loader panics" includes faults no recover() can catch - those end this child)
+		var inputs [][]byte
+		for code := 1; code < 0xFF; code++ {
+			inputs = append(inputs, []byte{0xFF, 0xD8, 0xFF, byte(code), 0x00, 0x04, 0xAB, 0xCD, 0xFF, byte(code), 0x00, 0x02, 0xFF, 0xD9})
+		}
+		for i := 0; i < 200; i++ {
+			cc := []byte{byte('A' + i%26), byte('a' + (i/26)%26), byte('A' + (i*7)%26), byte('a' + (i*3)%26)}
+			png := append(append([]byte{}, imggen.PNGSig...), 0, 0, 0, 1)
+			png = append(append(png, cc...), 0x55, 1, 2, 3, 4)
+			inputs = append(inputs, png)
+			webp := append([]byte("RIFF\x20\x00\x00\x00WEBP"), cc...)
+			webp = append(webp, 4, 0, 0, 0, 1, 2, 3, 4)
+			inputs = append(inputs, webp)
+		}
+		var bad atomic.Int64
+		firstUseBurst(8, false, func(g int) {
+			for k := range inputs {
+				in := inputs[(k+(g/2)*61)%len(inputs)]
+				for _, loader := range loaderNames {
+					res := loadWith(loader, bytes.NewReader(in))
+					if res.Panic != nil {
+						if bad.Add(1) == 1 {
+							r.Violate("prefix", loader+"/panic/concurrent-new-codes", fmt.Sprintf("%s.Load panicked on % x while eight goroutines load streams with codes new to the process: %v", loader, in, res.Panic), c07Case{Loader: loader, File: base64.StdEncoding.EncodeToString(in), Cut: len(in), Terminal: "eof", Schedule: "all", ReadBuf: 7})
+						}
+						continue
+					}
+					if res.Stream == nil {
+						continue
+					}
+					got, _, _ := src.ReadAllChunks(res.Stream, 7, int64(len(in))+4096)
+					if !bytes.Equal(got, in) && bad.Add(1) == 1 {
+						r.Violate("prefix", loader+"/bytes/concurrent-new-codes", fmt.Sprintf("%s.Load of % x (eight goroutines loading streams with codes new to the process): stream yields % x", loader, in, got), c07Case{Loader: loader, File: base64.StdEncoding.EncodeToString(in), Cut: len(in), Terminal: "eof", Schedule: "all", ReadBuf: 7})
+					}
+				}
+			}
+		})
+		r.AddEvals(int64(8 * len(inputs) * len(loaderNames)))
+		return
+	}
 	seeds := append(smallSeeds(r.Seed), hostileSpecials()...)
 	for _, s := range smallSeeds(r.Seed) {
 		if s.Truth.Format != "" && len(s.Bytes) > 0 && !strings.HasPrefix(s.Name, "real:") {
@@ -461,6 +538,13 @@ func runC07(r *core.Run) {
 						extraUnit{ji, cut, l, "seek", "bytes.Reader"})
 					if k%8 == 0 {
 						extras = append(extras, extraUnit{ji, cut, l, "seek", "os.File"}, extraUnit{ji, cut, l, "seek", "os.Pipe"})
+					}
+					if k%4 == 1 {
+						// readers that have nothing (more) to give when they are handed over, and a source
+						// that reports the length of its buffered part only
+						extras = append(extras, extraUnit{ji, 0, l, "seek", core.Pick(rg, []string{"bytes.Reader", "strings.Reader", "bufio.Reader"})},
+							extraUnit{ji, cut, l, "seek", core.Pick(rg, []string{"strings.Reader", "bufio.Reader"})},
+							extraUnit{ji, cut, l, "seek", "len-source"})
 					}
 					extras = append(extras, extraUnit{ji, cut, l, "sched", core.Pick(rg, []string{"zn1", "zn7", "zn64"})})
 					extras = append(extras, extraUnit{ji, cut, l, "drain", fmt.Sprintf("copy@%d", rg.Intn(64))}, extraUnit{ji, cut, l, "bufio", core.Pick(rg, []string{"16", "4096", "65536"})},
@@ -670,6 +754,12 @@ func runC07(r *core.Run) {
 		})
 		r.Obs("multi_megabyte_files", len(big))
 	}
+	if r.Variant == "" {
+		for _, v := range []string{"markers@8", "markers@2", "markers@16"} {
+			r.RunVariantChild(v, 5*time.Minute, false)
+		}
+		r.Obs("fresh_process_variants", []string{"markers@8", "markers@2", "markers@16"})
+	}
 	r.Obs("outcomes_terminal_x_metadata_success", outcomes)
 	r.Obs("seed_files", len(jobs))
 	r.Obs("load_units", len(units))
@@ -804,5 +894,5 @@ func replayC07(stage string, raw json.RawMessage) (bool, string, error) {
 var _ = io.EOF
 
 func init() {
-	core.Register(&core.Property{ID: "C07", Level: "fault_enumeration", Run: runC07, Replay: replayC07})
+	core.Register(&core.Property{ID: "C07", Level: "fault_enumeration", Run: runC07, Replay: replayC07, Child: variantChild("C07", "fault_enumeration", runC07)})
 }
